@@ -73,6 +73,13 @@ func (db *DB) openMemTables(opt Options) error {
 			flags = os.O_RDONLY
 		}
 		mt, err := db.openMemTable(fid, flags)
+		if err == z.NewFile {
+			// The file existed but was empty: the process died after creating it and before
+			// giving it its size and header. Nothing was ever written to it. openMemTable has
+			// just initialised it like a fresh file; drop it, as we do with any empty memtable.
+			mt.DecrRef()
+			continue
+		}
 		if err != nil {
 			return y.Wrapf(err, "while opening fid: %d", fid)
 		}
